@@ -502,6 +502,15 @@ def check_split(case):
         if abs(sum(pl) - cv.length) > tol:
             return bad('length-sum', 'piece lengths %r sum to %r, the curve has length %r' % (
                 pl, sum(pl), cv.length)), label
+        # ... and to the length the split object itself reports (it may have been reached
+        # through a history of reads and transforms)
+        try:
+            own = float(cv.obj.length)
+        except Exception as e:
+            return bad('raises ' + type(e).__name__, 'length of the split curve: %s' % e), label
+        if abs(sum(pl) - own) > tol:
+            return bad('length-sum-vs-own-length', 'piece lengths sum to %r, the split curve '
+                       'reports length %r' % (sum(pl), own)), label
         # the pieces run along the curve: original vertices in order, junctions on the edges
         chain = list(pv[0])
         for k in range(1, len(pv)):
